@@ -651,6 +651,11 @@ func (ev *Eval) quant(q *SQuant) (sval, error) {
 		return sval{}, err
 	}
 	var f Term
+	if q.Forall && len(binders) == 1 && g.topC != nil && g.topC.AddressQuant {
+		if t, ok := addressQuant(binders[0], tImp(tAnd(ranges...), body).S); ok {
+			return sval{v: boolVal(raw(t, SBool))}, nil
+		}
+	}
 	if q.Forall {
 		f = raw(fmt.Sprintf("(forall (%s) %s)", strings.Join(binders, " "), tImp(tAnd(ranges...), body).S), SBool)
 	} else {
@@ -1174,4 +1179,114 @@ func (g *Gen) idxTerm(p, i Term, cs int64) Term {
 		g.emit(fmt.Sprintf("(assert (forall ((p Int) (i Int)) (! (= (%s p i) (+ p (* %d i))) :pattern ((%s p i)))))", fn, cs, fn))
 	}
 	return app(fn, SInt, p, i)
+}
+
+// addressQuant restates `forall k :: P(k, H[base+k])` over the address a = base+k:
+// `forall a :: P(a-base, H[a])` with the pattern (select H a).  The two are equivalent (k <-> base+k is a bijection
+// on Int); the second can be instantiated by E-matching on any read of H, also one whose address is not
+// syntactically `base + something` (an element of a re-sliced or appended slice).  Only done when the bound
+// variable is an Int that occurs in element addresses of one base.
+func addressQuant(binder, body string) (string, bool) {
+	f := strings.Fields(strings.Trim(binder, "()"))
+	if len(f) != 2 || f[1] != "Int" {
+		return "", false
+	}
+	q := f[0]
+	base := ""
+	var heaps []string
+	seenHeap := map[string]bool{}
+	rest := body
+	for {
+		i := strings.Index(rest, "(select ")
+		if i < 0 {
+			break
+		}
+		args := splitTop(sexprBody(rest[i:]))
+		rest = rest[i+len("(select "):]
+		if len(args) != 3 || !containsSym(args[2], q) {
+			continue
+		}
+		a := args[2]
+		if !strings.HasPrefix(a, "(+ ") {
+			return "", false
+		}
+		parts := splitTop(a[3 : len(a)-1])
+		if len(parts) != 2 || parts[1] != q || containsSym(parts[0], q) || containsSym(args[1], q) {
+			return "", false
+		}
+		if base != "" && base != parts[0] {
+			return "", false
+		}
+		base = parts[0]
+		if !seenHeap[args[1]] {
+			seenHeap[args[1]] = true
+			heaps = append(heaps, args[1])
+		}
+	}
+	if base == "" || len(heaps) == 0 {
+		return "", false
+	}
+	qa := q + "_a"
+	out := strings.ReplaceAll(body, "(+ "+base+" "+q+")", qa)
+	out = replaceSym(out, q, "(- "+qa+" "+base+")")
+	var pats []string
+	for _, h := range heaps {
+		pats = append(pats, "(select "+h+" "+qa+")")
+	}
+	return fmt.Sprintf("(forall ((%s Int)) (! %s :pattern (%s)))", qa, out, strings.Join(pats, " ")), true
+}
+
+// sexprBody returns the inside of the s-expression that starts at s[0] == '('.
+func sexprBody(s string) string {
+	depth := 0
+	for i := 0; i < len(s); i++ {
+		switch s[i] {
+		case '(':
+			depth++
+		case ')':
+			depth--
+			if depth == 0 {
+				return s[1:i]
+			}
+		}
+	}
+	return s[1:]
+}
+
+func isSymChar(c byte) bool {
+	return c != ' ' && c != '(' && c != ')' && c != '\n' && c != '\t'
+}
+
+func containsSym(s, sym string) bool {
+	for i := 0; ; {
+		j := strings.Index(s[i:], sym)
+		if j < 0 {
+			return false
+		}
+		j += i
+		if (j == 0 || !isSymChar(s[j-1])) && (j+len(sym) == len(s) || !isSymChar(s[j+len(sym)])) {
+			return true
+		}
+		i = j + len(sym)
+	}
+}
+
+func replaceSym(s, sym, with string) string {
+	var b strings.Builder
+	for i := 0; i < len(s); {
+		j := strings.Index(s[i:], sym)
+		if j < 0 {
+			b.WriteString(s[i:])
+			break
+		}
+		j += i
+		if (j == 0 || !isSymChar(s[j-1])) && (j+len(sym) == len(s) || !isSymChar(s[j+len(sym)])) {
+			b.WriteString(s[i:j])
+			b.WriteString(with)
+		} else {
+			b.WriteString(s[i : j+len(sym)])
+		}
+		i = j + len(sym)
+	}
+	return b.String()
 }
